@@ -265,7 +265,7 @@ func Run(r *ev.Run) {
 		covered[f.name] = true
 	}
 	methodCoverage(r, covered)
-	n := r.N(30000, 300000)
+	n := r.N(30000, 2000000)
 	depths := []int{0, 0, 0, 3, 40, 120, 128, 500}
 	// frames between the logging line and the bottom of the stack with no wrappers and no extra depth
 	lastMark = nil
@@ -490,7 +490,7 @@ func slogFEs() []sfe {
 
 func slogCases(r *ev.Run) {
 	fes := slogFEs()
-	n := r.N(3000, 30000)
+	n := r.N(3000, 200000)
 	for i := 0; i < n; i++ {
 		id := fmt.Sprintf("c15/slog/%d", i)
 		if !r.Want(id) {
